@@ -808,4 +808,31 @@ instance (s : State) : Decidable (TotalLendEq s) := by unfold TotalLendEq; infer
 instance (cfg : Cfg) (s : State) : Decidable (TotalBorrowedEq cfg s) := by unfold TotalBorrowedEq; infer_instance
 instance (cfg : Cfg) (s : State) : Decidable (TotalStableEq cfg s) := by unfold TotalStableEq; infer_instance
 
+/-! ## The LTV comparison over the integers (decidable: the driver evaluates it on the REAL accepted operations)
+
+`CalcAssetPrice` is `Dec(amt)·Dec(price)/Dec(decimals)`: the product of two integer `Dec`s is exact, `Quo` truncates the big-integer
+division and then drops 18 digits half-even; the ratio is one more `Quo`. `ExactLtv` is "ratio ≤ ltv" multiplied out with the slack of
+those three roundings: with `u = 10⁻¹⁸`, `D = debt·pout/dOut`, `C = coll·pin/dIn` (exact rationals)
+`(D − ½u − u²)·… < (ltv + ½u + u²)·(C + ½u)`. -/
+
+def ExactLtv (ltv coll pin dIn debt pout dOut : Int) : Prop :=
+  (2 * (debt * pout * Dec.P * Dec.P) - (Dec.P + 2) * dOut + 2) * dIn * (2 * Dec.PP) <
+    ((2 * ltv + 1) * Dec.P + 2) * (2 * (coll * pin * Dec.P * Dec.P) + dIn * Dec.P) * dOut
+
+/-- decimal scales that divide `10^18` make both valuations exact; only the final `Quo` rounds:
+`D / C < ltv + ½u + u²`, multiplied out -/
+def ExactLtvScales (ltv coll pin dIn debt pout dOut : Int) : Prop :=
+  2 * (debt * pout * dIn) * Dec.PP < ((2 * ltv + 1) * Dec.P + 2) * (coll * pin * dOut)
+
+instance (ltv coll pin dIn debt pout dOut : Int) : Decidable (ExactLtv ltv coll pin dIn debt pout dOut) := by
+  unfold ExactLtv; infer_instance
+instance (ltv coll pin dIn debt pout dOut : Int) : Decidable (ExactLtvScales ltv coll pin dIn debt pout dOut) := by
+  unfold ExactLtvScales; infer_instance
+
+/-- the exact LTV inequality for amounts of two configured assets at the prices in force (`false` when something is missing) -/
+def exactLtvOn (cfg : Cfg) (prices : List (Nat × Nat)) (ltv : Dec) (coll : Int) (assetIn : Nat) (debt : Int) (assetOut : Nat) : Bool :=
+  match cfg.asset? assetIn, prices.lookup assetIn, cfg.asset? assetOut, prices.lookup assetOut with
+  | some ai, some pin, some ao, some pout => decide (ExactLtv ltv coll (pin : Int) ai.decimals debt (pout : Int) ao.decimals)
+  | _, _, _, _ => false
+
 end Comdex.Lend
